@@ -533,6 +533,15 @@ class Engine:
         (no spec unfolding: keeping an infeasible path is sound, only costly)."""
         t0 = time.time()
         s = z3.Solver()
+        if getattr(self, "quick_cli", False):
+            # the in-process solver crashed on this function before (z3 5.1 segfaults on a few sequence
+            # queries): feasibility checks go to the stand-alone z3 4.8.12 binary instead
+            for f in formulas:
+                s.add(f)
+            r = self.cli_check(s, 3000, rlimit=self.quick_rlimit * 20)
+            self.stats["quick_sat"] += 1
+            self.stats["quick_time"] += time.time() - t0
+            return r != z3.unsat
         # a *resource* limit, not a wall-clock one: which infeasible paths are pruned (and hence
         # which obligations exist) must not depend on the machine's load
         s.set("rlimit", self.quick_rlimit)
@@ -776,7 +785,7 @@ class Engine:
                     s.add(a)
         return s.check() == z3.unsat
 
-    def cli_check(self, solver, budget_ms):
+    def cli_check(self, solver, budget_ms, rlimit=None):
         """second back end: the query exported as SMT-LIB 2 and decided by the stand-alone z3
         4.8.12 binary (/usr/bin/z3), a different build and version from the z3-solver 5.1 wheel
         used in-process.  Used when the in-process solver crashes, and in the thorough tier to
@@ -790,7 +799,8 @@ class Engine:
             path = fh.name
         try:
             secs = max(1, int(budget_ms / 1000))
-            p = subprocess.run([CLI_PATH, f"-T:{secs}", path], capture_output=True, text=True, timeout=secs + 20)
+            cmd = [CLI_PATH, f"-T:{secs}"] + ([f"rlimit={int(rlimit)}"] if rlimit else []) + [path]
+            p = subprocess.run(cmd, capture_output=True, text=True, timeout=secs + 20)
             out = p.stdout.strip().splitlines()
             first = out[0].strip() if out else ""
             if first == "unsat":
